@@ -169,6 +169,10 @@ func (v *inputFieldDefaultInjectionVisitor) processObjectOrListInput(fieldType i
 	if node.Kind == ast.NodeKindScalarTypeDefinition {
 		return defaultValue, false, nil
 	}
+	if node.Kind != ast.NodeKindInputObjectTypeDefinition {
+		// e.g. an enum: node.Ref is not an input object ref, there are no input fields to inject defaults for
+		return defaultValue, false, nil
+	}
 	finalVal := defaultValue
 	replaced := false
 	valIsList := valType == jsonparser.Array
